@@ -403,3 +403,12 @@ def need(report, cond, what):
 
 def tier_pick(tier, quick, thorough):
     return quick if tier == "quick" else thorough
+
+
+def pmap(func, arglist, procs=None):
+    """Run func(*args) for each args tuple in a process pool (monitors over shard logs)."""
+    import multiprocessing as mp
+    if len(arglist) <= 1:
+        return [func(*a) for a in arglist]
+    with mp.Pool(min(procs or NCPU, len(arglist))) as pool:
+        return pool.starmap(func, arglist)
